@@ -9,14 +9,16 @@ import random
 from vlib import cemi_gen as G
 from vlib.vloop import Deadlock, LoopBudget, new_loop
 from xknx import XKNX
-from xknx.cemi import CEMIFrame
+from xknx.cemi import CEMIFrame, CEMIMessageCode
+from xknx.cemi.cemi_frame import CEMILData
 from xknx.cemi.cemi_handler import REQUEST_TO_CONFIRMATION_TIMEOUT, CEMIHandler
 from xknx.dpt import DPTArray, DPTBinary
 from xknx.exceptions import CommunicationError, ConfirmationError
 from xknx.management.management import Management
+from xknx.secure.data_secure import DataSecure
 from xknx.telegram import GroupAddress, IndividualAddress, Telegram, TelegramDirection
 from xknx.telegram import tpci as T
-from xknx.telegram.apci import GroupValueRead, GroupValueWrite, MemoryRead
+from xknx.telegram.apci import GroupValueRead, GroupValueWrite, MemoryRead, SecureAPDU
 
 LEVEL = "exploration"
 TECHNIQUE = (
@@ -31,6 +33,11 @@ LEVEL_TEXT = (
     "history is first run as baseline, then re-run once per event-loop iteration k of the baseline with one extra frame (L_Data.con, "
     "or L_Data.req / L_Data.ind / M_PropRead.con / garbage as non-confirmations) injected at iteration k exactly as a datagram callback "
     "would be (appended to the ready queue from select(); when the loop would have slept the clock advances by a fraction of the sleep).  "
+    "Configuration is a dimension of every history: Data Secure absent / configured (DataSecure built from key and sender tables, as "
+    "after loading a keyring; sends to keyed and unkeyed group addresses and point-to-point; received frames include valid secured "
+    "frames from a second DataSecure instance and plain ones), xknx.current_address set / never set (0.0.0), telegram source address "
+    "given / defaulted, rate limiter off / 20 per second, interface behaving like a tunnel (con after the ACK) or like Routing (con "
+    "made inside send_cemi on the very frame object, whose code is rewritten).  "
     "Exploration: histories are sampled; for each sampled history the injection index is exhaustive over the baseline."
 )
 LEVEL_NOTE = (
@@ -45,12 +52,15 @@ LEVEL_NOTE = (
     "REQUEST_TO_CONFIRMATION_TIMEOUT virtual seconds after send_cemi returned, and every send ends.  Recorded, not judged: "
     "T_Data_Tag_Group frames; ConfirmationError although a confirmation arrived after hand-off (lost to a concurrent send's clear() or "
     "racing the timeout at the same instant); L_Data.con with the error flag; CommunicationError raised by the interface; dispatch of queued "
-    "telegrams to telegram_received callbacks; DataSecure (no keyring)."
+    "telegrams to telegram_received callbacks; plain frames to a group address that has a Data Secure key (discarded by Data Secure: C18)."
 )
 SHARDS = {"quick": 1, "thorough": 16}
 TIMEOUT = {"quick": 200, "thorough": 2400}
 
-OWN = (IndividualAddress("1.1.5"), IndividualAddress("15.15.250"))
+OWN = (IndividualAddress("1.1.5"), IndividualAddress("15.15.250"), IndividualAddress("1.1.5"), IndividualAddress(0))  # 0.0.0 = never set
+KEYED_GAS = (0x0A02, 0x0B03)  # group addresses with a Data Secure key when the history has Data Secure configured
+DS_SENDERS = (0x1101, 0x1203)
+SEND_SRC = 0x1109
 EPS = 1e-6
 
 
@@ -72,6 +82,8 @@ class Monitor:
         self.con_idx: list[int] = []
         self.cb_incoming = 0
         self.unjudged_tag_group = 0
+        self.unjudged_plain_to_keyed = 0
+        self.secured_handoffs = 0
 
     def ev(self, *item) -> int:
         self.log.append(item)
@@ -118,6 +130,8 @@ class FakeInterface:
             rec["handoff_t"] = loop.time()
             rec["behaviour"] = beh
         mon.current = None
+        if isinstance(cemi.data.payload, SecureAPDU):
+            mon.secured_handoffs += 1
         con_raw = bytes((G.L_DATA_CON,)) + cemi.to_knx()[1:]
         if beh.get("con_error"):
             h = 2 + con_raw[1]
@@ -136,8 +150,11 @@ class FakeInterface:
                 rec["done_idx"] = mon.ev("handoff_failed", rec["sid"])
                 rec["done_t"] = loop.time()
             raise CommunicationError("fake interface: not connected")
-        if kind == "inside":  # Routing: local confirmation before send_cemi returns
-            self.deliver_con(con_raw, "gateway-inside-send_cemi")
+        if kind == "inside":  # Routing: local confirmation before send_cemi returns; it rewrites the code of the very frame object
+            cemi.code = CEMIMessageCode.L_DATA_IND
+            cemi.to_knx()
+            cemi.code = CEMIMessageCode.L_DATA_CON
+            self.deliver_con(cemi.to_knx(), "gateway-inside-send_cemi")
         elif kind == "after":
             d = beh["con_delay"]
             if d == 0:
@@ -248,7 +265,7 @@ def _apdu_for(rng: random.Random):
     return MemoryRead(address=addr, count=cnt), bytes((0x02, cnt)) + addr.to_bytes(2, "big")
 
 
-def gen_incoming(rng: random.Random, own: IndividualAddress) -> dict:
+def gen_incoming(rng: random.Random, own: IndividualAddress, ds: bool = False) -> dict:
     """One received raw frame + what the statement says must happen with it."""
     kind = rng.choice(("group", "group", "group", "broadcast", "own", "own", "foreign", "foreign", "tag", "con", "req",
                        "con_group", "req_group", "mprop", "unknown_code", "malformed", "own_ctrl", "foreign_ctrl", "foreign0"))
@@ -258,12 +275,19 @@ def gen_incoming(rng: random.Random, own: IndividualAddress) -> dict:
     payload, tpdu = _apdu_for(rng)
     exp = {"kind": kind, "queue": None, "mgmt": None}
     foreign = rng.choice([a for a in (0x1106, 0x1205, 0xFFFF, 0x0000, 0x1104) if a != own.raw])
-    ga = rng.choice((0x0901, 0x0001, 0xFFFF, 0x7FFF))
+    ga = rng.choice((0x0901, 0x0001, 0xFFFF, 0x7FFF, KEYED_GAS[0]))
+    if ds and kind == "group" and ga not in KEYED_GAS and rng.random() < 0.35:
+        kind = exp["kind"] = "group_secure"  # built later in delivery order (sequence numbers must increase)
+        return {"raw": b"", "exp": exp, "secure": {"src": rng.choice(DS_SENDERS), "dst": rng.choice(KEYED_GAS), "tpdu": tpdu}}
     if kind in ("group", "con_group", "req_group"):
         code = {"group": G.L_DATA_IND, "con_group": G.L_DATA_CON, "req_group": G.L_DATA_REQ}[kind]
         raw = G.l_data(code, ctrl1=c1, ctrl2=0x80 | hop, src=src, dst=ga, tpdu=tpdu)
         if kind == "group":
-            exp["queue"] = {"src": src, "dst": ga, "apdu": tpdu}
+            if ds and ga in KEYED_GAS:
+                # plain frame to a secured group address: discarded by Data Secure (C18's subject), not judged here
+                exp["unjudged"] = "plain_to_keyed"
+            else:
+                exp["queue"] = {"src": src, "dst": ga, "apdu": tpdu}
     elif kind == "broadcast":
         raw = G.l_data(G.L_DATA_IND, ctrl1=c1, ctrl2=0x80 | hop, src=src, dst=0, tpdu=tpdu)
         exp["mgmt"] = {"src": src, "dst": 0, "group": True, "tpci": "TDataBroadcast"}
@@ -322,19 +346,49 @@ def gen_send(rng: random.Random, own: IndividualAddress) -> dict:
     if rng.random() < 0.05:
         beh["raise"] = True
     return {"kind": kind, "path": path, "at": rng.choice((0, 0, 0, 0.001, 0.05, 1.0, 2.0, 3.0, 4.5)), "beh": beh,
-            "ga": rng.choice((0x0901, 0x0A02)), "val": rng.randrange(256)}
+            "ga": rng.choice((0x0901, 0x0A02)), "val": rng.randrange(256), "src": rng.choice((None, None, SEND_SRC))}
 
 
 def gen_history(rng: random.Random) -> dict:
     own = rng.choice(OWN)
+    ds = None
+    if rng.random() < 0.5:
+        ds = {"keys": {str(ga): bytes(rng.getrandbits(8) for _ in range(16)).hex() for ga in KEYED_GAS},
+              "senders": {str(ia): 0 for ia in DS_SENDERS}, "seq": rng.choice((1, 1000, 2**40))}
     n_in = rng.randrange(0, 9)
     incoming = []
-    for _ in range(n_in):
-        f = gen_incoming(rng, own)
+    for i in range(n_in):
+        f = gen_incoming(rng, own, ds is not None)
         f["at"] = rng.choice((0, 0.0005, 0.01, 0.05, 0.5, 1.0, 1.5, 2.0, 3.0, 3.05, 4.0, 6.0))
+        if "secure" in f:
+            f["at"] += (i + 1) * 1e-5  # distinct instants: the delivery order of the secured frames is then the order of `at`
         incoming.append(f)
+    if ds is not None:
+        _build_secure_frames(ds, incoming)
     sends = [gen_send(rng, own) for _ in range(rng.randrange(1, 4))]
-    return {"own": own.raw, "incoming": incoming, "sends": sends}
+    return {"own": own.raw, "ds": ds, "rate_limit": rng.choice((0, 0, 20)), "incoming": incoming, "sends": sends}
+
+
+def make_data_secure(ds: dict, seq: int | None = None) -> DataSecure:
+    return DataSecure(
+        group_key_table={GroupAddress(int(ga)): bytes.fromhex(key) for ga, key in ds["keys"].items()},
+        individual_address_table={IndividualAddress(int(ia)): n for ia, n in ds["senders"].items()},
+        last_sequence_number_sending=seq if seq is not None else ds["seq"],
+    )
+
+
+def _build_secure_frames(ds: dict, incoming: list[dict]) -> None:
+    """Valid secured L_Data.ind frames from a second (sender) DataSecure instance, numbered in delivery order."""
+    from xknx.telegram.apci import APCI
+
+    sender = make_data_secure(ds, seq=5000)
+    for f in sorted((f for f in incoming if "secure" in f), key=lambda f: f["at"]):
+        sec = f.pop("secure")
+        plain = CEMILData(src_addr=IndividualAddress(sec["src"]), dst_addr=GroupAddress(sec["dst"]), tpci=T.TDataGroup(),
+                          payload=APCI.from_knx(sec["tpdu"]))
+        frame = CEMIFrame(code=CEMIMessageCode.L_DATA_IND, data=sender.outgoing_cemi(plain))
+        f["raw"] = frame.to_knx()
+        f["exp"]["queue"] = {"src": sec["src"], "dst": sec["dst"], "apdu": sec["tpdu"]}
 
 
 INJECT_KINDS = ("con", "con", "con", "req", "ind_group", "mprop", "garbage", "con_short")
@@ -375,7 +429,9 @@ def run_history(hist: dict, inject_k: int | None = None, inject_kind: str = "con
 
     def deliver(frame: dict, why: str) -> None:
         exp = frame["exp"]
-        if exp.get("unjudged"):
+        if exp.get("unjudged") == "plain_to_keyed":
+            mon.unjudged_plain_to_keyed += 1
+        elif exp.get("unjudged"):
             mon.unjudged_tag_group += 1
         if frame.get("is_con") or exp["kind"] in ("con", "con_group"):
             mon.con_idx.append(mon.ev("con", why))
@@ -400,7 +456,11 @@ def run_history(hist: dict, inject_k: int | None = None, inject_kind: str = "con
     async def main() -> None:
         nonlocal xknx
         xknx = XKNX()
-        xknx.current_address = own
+        if own.raw:  # 0.0.0: the address was never set (no connection made yet)
+            xknx.current_address = own
+        if hist.get("ds"):
+            xknx.cemi_handler.data_secure = make_data_secure(hist["ds"])
+        xknx.rate_limit = hist.get("rate_limit", 0)
         q = RecordingQueue()
         xknx.telegrams = q
         xknx.knxip_interface = FakeInterface(xknx, mon, [s["beh"] for s in hist["sends"]])  # type: ignore[assignment]
@@ -426,6 +486,8 @@ def run_history(hist: dict, inject_k: int | None = None, inject_kind: str = "con
                 tg = Telegram(destination_address=IndividualAddress(0x1107), tpci=T.TConnect())
             else:
                 tg = Telegram(destination_address=GroupAddress(0), tpci=T.TDataBroadcast(), payload=GroupValueRead())
+            if s.get("src"):
+                tg.source_address = IndividualAddress(s["src"])
             if s["path"] == "queue":
                 mon.harness_puts.add(id(tg))
                 result.setdefault("keep", []).append(tg)
@@ -500,6 +562,17 @@ def judge(ctx, hist: dict, res: dict, tag: dict) -> None:
     ctx.count("telegrams_queued_by_receive_path", len(mon.queued))
     ctx.count("management_process_calls", len(mon.mgmt))
     ctx.count("tag_group_frames_unjudged", mon.unjudged_tag_group)
+    ctx.count("plain_frames_to_secured_group_address_unjudged", mon.unjudged_plain_to_keyed)
+    if hist.get("ds"):
+        ctx.count("histories_with_data_secure")
+        ctx.count("handoffs_of_secured_frames", mon.secured_handoffs)
+        ctx.count("secured_group_frames_received", sum(1 for f in hist["incoming"] if f["exp"]["kind"] == "group_secure"))
+    else:
+        ctx.count("histories_without_data_secure")
+    if not hist["own"]:
+        ctx.count("histories_with_current_address_unset")
+    if hist.get("rate_limit"):
+        ctx.count("histories_with_rate_limit")
     got_q = [{"src": t.source_address.raw, "dst": t.destination_address.raw,
               "apdu": bytes(t.payload.to_knx()) if t.payload is not None else None,
               "group": isinstance(t.destination_address, GroupAddress), "dir": t.direction.name,
@@ -550,6 +623,8 @@ def judge(ctx, hist: dict, res: dict, tag: dict) -> None:
     # (3)/(4) sends
     for rec in mon.sends:
         ctx.count("sends_observed")
+        if hist.get("ds"):
+            ctx.count("sends_observed_with_data_secure")
         swit = dict(wit, send={k: v for k, v in rec.items()})
         out = rec["outcome"]
         ctx.count(f"send_outcome_{out}")
@@ -630,7 +705,9 @@ def run(ctx):
     ctx.require("baselines", "injections", "telegrams_queued_by_receive_path", "management_process_calls",
                 "send_completed_with_confirmation_after_handoff", "confirmation_error_as_required",
                 "confirmation_arrived_during_send_cemi", "frames_expected_in_queue", "frames_expected_at_management",
-                "injected_con", "injected_req")
+                "injected_con", "injected_req", "histories_with_data_secure", "histories_without_data_secure",
+                "handoffs_of_secured_frames", "secured_group_frames_received", "sends_observed_with_data_secure",
+                "histories_with_current_address_unset", "histories_with_rate_limit")
     rng = random.Random(f"C14/{ctx.seed}")
     n_hist = ctx.scale(300, 6400)
     with observers():
